@@ -19,7 +19,7 @@ MODES = ("unchecked", "skip", "wrap")
 FLOORS = {"quick": dict({f"cell:{m}:{'dmp' if d else 'difflib'}:{s}": 1500
                          for m in MODES for d in (True, False) for s in ("nosrc", "forced", "edited")},
                         **{"markup_docs": 300, "style_repair_moved": 100, "empty_spans": 1000,
-                           "overlapping_sets": 1000, "annotations_emitted": 20000, "style:link": 15000, "style:sentinel": 15000, "style:meta": 5000}),
+                           "overlapping_sets": 1000, "annotations_emitted": 20000, "style:link": 15000, "style:sentinel": 15000, "style:meta": 5000, "style_exhaustive_pairs": 10000}),
           "thorough": {"cases": 400000, "markup_docs": 20000, "style_repair_moved": 5000}}
 N = {"quick": 1400, "thorough": 60000}
 SHARDS = {"quick": 8, "thorough": 14}
@@ -29,7 +29,7 @@ PROBES = [("Id. at 3; id. at 5", "<i>Id. at 3; id.</i> at 5", [(0, 8), (10, 18)]
 
 
 def plan(tier, seed):
-    return [dict(i=i, n=N[tier], seed=seed * 1000 + i, probes=(i == 0)) for i in range(SHARDS[tier])]
+    return [dict(i=i, nshards=SHARDS[tier], n=N[tier], seed=seed * 1000 + i, probes=(i == 0)) for i in range(SHARDS[tier])]
 
 
 def classify(v):
@@ -87,6 +87,7 @@ def run_shard(spec, rec):
                 for dmp in (True, False):
                     one(rec, p, A.annotations(sp), s or None, mode, dmp, "probe",
                         dict(plain=p, source=s, spans=sp, mode=mode, dmp=dmp))
+    style_repair_exhaustive(spec, rec)
     for k in range(spec["n"]):
         p = A.plain_text(rng)
         r = rng.random()
@@ -127,6 +128,32 @@ def run_shard(spec, rec):
         # extracted spans on marked-up legal text
         if k % 4 == 0:
             extracted_case(rng, rec)
+
+
+STYLE_TEMPLATES = [("Roe; id. at 5", "<i>Roe; id.</i> at 5"), ("See Roe, 1 U.S. 1", "See <em>Roe</em>, 1 U.S. 1"),
+                   ("ab cd ef", "a<b>b c</b>d <i>ef</i>"), ("Id. at 3; id. at 5", "<i>Id. at 3; id.</i> at 5")]
+
+
+def style_repair_exhaustive(spec, rec):
+    """Every (one real span, one empty span) pair - in both orders - over small templates whose source has
+    style tags next to the text: the style-tag repair of 'skip' mode moves span edges across inserted
+    tags, and an empty annotation may sit exactly where it moves them to."""
+    n = 0
+    for plain, src in STYLE_TEMPLATES:
+        L = len(plain)
+        for a in range(L):
+            for b in range(a + 1, L + 1):
+                n += 1
+                if n % spec["nshards"] != spec["i"]:
+                    continue
+                for e in range(L + 1):
+                    for order in (0, 1):
+                        sp = [(e, e), (a, b)] if order == 0 else [(a, b), (e, e)]
+                        anns = A.annotations(sp)
+                        for mode in MODES:
+                            case = dict(plain=plain, source=src, spans=sp, mode=mode, dmp=True, style="sentinel")
+                            one(rec, plain, anns, src, mode, True, "style_exhaustive", case)
+                        rec.count("style_exhaustive_pairs")
 
 
 def extracted_case(rng, rec):
